@@ -3,7 +3,7 @@
    `aq` is the exact quantity of an amount, `bden`/`den` the exact quantity a balance /
    value holds per commodity; `cp` is the commodity pool's display precision, `ord` the
    (unspecified) hash-table insertion order - every statement holds for all of them. *)
-From LedgerV Require Import Base.Prelude Base.Round Model.Amount Proofs.AmountProofs.
+From LedgerV Require Import Base.Prelude Base.Round Model.Amount Proofs.AmountProofs Proofs.CompareProofs.
 From Coq Require Import Qabs.
 Local Open Scope Q_scope.
 
@@ -72,6 +72,26 @@ Theorem equality_on_exact_values : forall a b,
   amt_eqb a b = true <-> acomm a = acomm b /\ aq a == aq b.
 Proof. exact amt_eqb_spec. Qed.
 Print Assumptions equality_on_exact_values.
+
+(* ordering of a BALANCE-typed value (a multi-commodity balance, or an amount that became one: `$5 + 0`) against
+   a number or an amount w: `<` holds exactly when EVERY component is below w's exact quantity; in particular a
+   component exactly equal to w vetoes it ( ($5 + 0) < $5 is false ) *)
+Theorem balance_less_than_on_exact_values : forall b w q r,
+  b <> [] -> scalar_q w = Some q -> v_ltb (VBal b) w = Ok r ->
+  (r = true <-> Forall (fun x => aq x < q) b).
+Proof. exact v_ltb_balance_exact. Qed.
+Print Assumptions balance_less_than_on_exact_values.
+
+Theorem balance_less_than_vetoed_by_equal_component : forall w q b x r,
+  scalar_q w = Some q -> In x b -> aq x == q -> bal_all_lt b w = Ok r -> r = false.
+Proof. exact bal_lt_equal_component. Qed.
+Print Assumptions balance_less_than_vetoed_by_equal_component.
+
+Example ex_balance_boundary :
+  let five := mkAmt (5 # 1) 0 false (Some [36%Z]) in
+  v_ltb (VBal [five]) (VAmt five) = Ok false /\
+  v_ltb (VBal [five]) (VAmt (mkAmt (501 # 100) 2 false (Some [36%Z]))) = Ok true.
+Proof. vm_compute. split; reflexivity. Qed.
 
 (* ---- laws ---- *)
 Theorem addition_commutative : forall a b r r',
